@@ -270,6 +270,7 @@ type tunnelScript struct {
 	xff          string
 	auth         string   // Authorization header value ("" = none)
 	returnCookie bool     // a client that has talked to the gateway before and sends its session cookie back
+	cookieHdr    string   // the Cookie header of a client whose earlier visit happened at a time of the caller's choosing (visitCookie)
 	afterEnd     [][]byte // packets sent after the tunnel should have ended (silence check)
 	end          string   // how the client ends: close | leave
 }
@@ -296,25 +297,37 @@ func openTunnel(g *gwInstance, sc tunnelScript) (tclient, error) {
 	}
 	if sc.returnCookie {
 		// an earlier visit (a plain request, answered with the session cookie): the cookie is sent back now
-		if !g.tls {
-			if resp, err0 := http.Get(fmt.Sprintf("http://127.0.0.1:%d/remoteDesktopGateway/", g.port)); err0 == nil {
-				var ck []string
-				for _, c := range resp.Header.Values("Set-Cookie") {
-					ck = append(ck, strings.SplitN(c, ";", 2)[0])
-				}
-				io.Copy(io.Discard, resp.Body)
-				resp.Body.Close()
-				if len(ck) > 0 {
-					hdr["Cookie"] = strings.Join(ck, "; ")
-				}
-			}
+		if ck := visitCookie(g); ck != "" {
+			hdr["Cookie"] = ck
 		}
+	}
+	if sc.cookieHdr != "" {
+		hdr["Cookie"] = sc.cookieHdr
 	}
 	ws, st, _, err := wsDial(g, wsOpts{headers: hdr, connID: sc.id})
 	if err != nil || st != 101 {
 		return nil, fmt.Errorf("ws: status %d err %v", st, err)
 	}
 	return ws, nil
+}
+
+// visitCookie: a plain request to the gateway endpoint, answered with the session cookie; returns the
+// Cookie header a returning client would send.
+func visitCookie(g *gwInstance) string {
+	if g.tls {
+		return ""
+	}
+	resp, err := http.Get(fmt.Sprintf("http://127.0.0.1:%d/remoteDesktopGateway/", g.port))
+	if err != nil {
+		return ""
+	}
+	var ck []string
+	for _, c := range resp.Header.Values("Set-Cookie") {
+		ck = append(ck, strings.SplitN(c, ";", 2)[0])
+	}
+	io.Copy(io.Discard, resp.Body)
+	resp.Body.Close()
+	return strings.Join(ck, "; ")
 }
 
 // runTunnel plays the script and collects what the client sees. Responses are
